@@ -420,8 +420,7 @@ fn explore(prop: &str, run: &mut Run, u: &U) {
     let skip_compiled = only.as_ref().map(|k| k.starts_with("dyn:")).unwrap_or(false);
     let skip_dyn = only.as_ref().map(|k| k.starts_with("derived:")).unwrap_or(false);
     if !skip_compiled {
-        let st = par_items(&citems, Some(20_000), &|it: &Item| {
-            println!("VIOLATION property={prop} replay=/verif/replays/{prop}-hang.json");
+        let st = par_items(&citems, Some(bridge::rt::hang_limit()), &|it: &Item| {
             println!("  hang in derived history {} w={} r={}", it.hi, it.w, it.r);
         }, &|it: &Item, st: &mut Stats| explore_compiled(prop, u, it.hi, it.w, it.r, st, thorough, &only));
         run.stats.merge(st);
@@ -434,8 +433,7 @@ fn explore(prop: &str, run: &mut Run, u: &U) {
         }
     }
     if !skip_dyn {
-        let st = par_items(&ditems, Some(20_000), &|it: &Item| {
-            println!("VIOLATION property={prop} replay=/verif/replays/{prop}-hang.json");
+        let st = par_items(&ditems, Some(bridge::rt::hang_limit()), &|it: &Item| {
             println!("  hang in dynamic history {} w={} r={}", it.hi, it.w, it.r);
         }, &|it: &Item, st: &mut Stats| explore_dyn(prop, &dh[it.hi], it.hi, it.w, it.r, st, thorough, &only));
         run.stats.merge(st);
